@@ -36,6 +36,12 @@ CHECKS.update({
                 text="For each generated history the drive file (intact or cut) is combined with no index, the current index or a stale copy; NewSTFS+Initialize must not change a byte of a tape that holds a root, a successful open must show exactly the from-scratch rebuild (names, attributes, content), and a directory and file written afterwards must read back and survive a rebuild together with every earlier entry."),
 })
 
+CHECKS.update({
+    "C14": dict(cat="model_checking", design="7/C14", technique="TLA+ spec File.tla (byte array + cursor + flags) model-checked with TLC and validated against os.File in every run; TLC-generated handle-call sequences replayed on real handles, every returned count/offset/byte/EOF compared, then Close + fresh open + Stat",
+                note="trusted: TLC, afero OsFs/os.File as ground truth for the reference (checked in the same run); WriteAt on append handles unspecified",
+                text="File.tla defines read/readAt/seek/write/writeAt/writeString/truncate/sync/stat on a handle for 7 flag sets; TLC checks its sanity properties (failed calls leave cursor and data alone, positioned calls keep the cursor, append only grows, read-only handles never change data) exhaustively for short sequences and generates random sequences of 14 and 30 calls with negative/zero/inside/at/beyond-end offsets. Each sequence is replayed on a real STFS handle (both write caches, sampled pipelines and record sizes, offsets scaled up to multi-record files) comparing every result, then the file is closed, reopened and stat-ed; one in eight sequences is also replayed on os.File to validate the reference."),
+})
+
 NOT_APPLICABLE = {}
 
 PENDING = {}
